@@ -189,7 +189,7 @@ fn ground(r: &mut Rng) -> ST {
         _ => gen_literal(r),
     }
 }
-pub const SHAPES: [&str; 14] = ["cycle", "clique", "components", "star", "bipartite", "blank-graph", "twice-in-quad", "three-blank-quad", "row28-witness", "literals", "random", "unsupported", "path-tree", "b9-b10"];
+pub const SHAPES: [&str; 15] = ["cycle", "clique", "components", "star", "bipartite", "blank-graph", "twice-in-quad", "three-blank-quad", "row28-witness", "literals", "random", "unsupported", "path-tree", "b9-b10", "b9-b10-witness"];
 /// a dataset of one of the shapes; at most 6 blank nodes
 pub fn gen_dataset(r: &mut Rng, shape: usize, big: bool) -> Vec<Q> {
     let mut v: Vec<Q> = vec![];
@@ -338,16 +338,22 @@ pub fn gen_dataset(r: &mut Rng, shape: usize, big: bool) -> Vec<Q> {
             let k = r.below(v.len() + 1);
             v.insert(k, bad);
         }
-        "b9-b10" => {
+        "b9-b10" | "b9-b10-witness" => {
             // ten or more temporary identifiers, and a related-node list in which one node occurs twice:
             // permutations then give paths of different lengths (_:b9 vs _:b10).  A chain a0..a(L-1) ends in
             // n = a(L-1); n p x g1 . n p x g2 . n p yi g1 . m p yi g2 .  (x and the yi share a first-degree
             // hash; x is related to n twice); everything duplicated so that no first-degree hash is unique
-            let l = r.range(5, 10);
-            let ny = r.range(1, 3);
-            let pc = r.ps(&[P, PQ, "http://e/r", "http://e/s", "http://e/t"]);
-            let pg = r.ps(&[P, PQ, "http://e/r", "http://e/u"]);
-            let copies = r.range(1, 2);
+            let witness = SHAPES[shape] == "b9-b10-witness";
+            let mut l = r.range(5, 10);
+            let mut ny = r.range(1, 3);
+            let mut pc = r.ps(&[P, PQ, "http://e/r", "http://e/s", "http://e/t"]);
+            let mut pg = r.ps(&[P, PQ, "http://e/r", "http://e/u"]);
+            let mut copies = r.range(1, 2);
+            if witness {
+                // with SHA-256 the code before the repair of smaller_path canonicalises this dataset
+                // differently from RDFC-1.0
+                (l, ny, pc, pg, copies) = (9, 2, PQ, "http://e/u", 2);
+            }
             for c in 0..copies {
                 let nd = |i: usize| bnode(&format!("c{c}n{i}"));
                 for i in 0..l - 1 {
@@ -784,7 +790,7 @@ fn check_one(tag: &str, d: &[Q], order: &[Q], out: &Outcome, spec: &Result<SpecO
             // (d) equality with the independent transcription of the W3C text
             match spec {
                 Ok(s) if s.bytes == out.bytes => {}
-                Ok(s) => fails.push(format!("{tag}: output differs from RDFC-1.0 as transcribed from the W3C text{}: got {:?}, specification gives {:?}", if has_repeat(d) { " (the dataset has a quad mentioning one blank node twice)" } else { "" }, out.bytes, s.bytes)),
+                Ok(s) => fails.push(format!("{tag}: output differs from RDFC-1.0 as transcribed from the W3C text{}: got {:?}, specification gives {:?}", if has_repeat(d) { " (the dataset has a quad mentioning one blank node twice)" } else if nb > 10 { " (the dataset has more than ten blank nodes: temporary identifiers _:b9 / _:b10 give paths of different lengths, and smaller_path prefers the shorter one instead of the one that is first in code point order)" } else { "" }, out.bytes, s.bytes)),
                 Err(e) => fails.push(format!("{tag}: canonicalisation succeeded on input outside RDFC-1.0 ({e})")),
             }
         }
@@ -834,11 +840,15 @@ pub fn run(mode: &str) {
         let mut r = base.fork(idx as u64);
         let exhaustive = c06 && thorough && idx < EXHAUSTIVE;
         let forced = a.rest.iter().position(|x| x == "--shape").and_then(|i| a.rest.get(i + 1)).and_then(|n| SHAPES.iter().position(|s| s == n));
-        let shape = if let Some(f) = forced { f } else if c06 { *r.pick(&[9usize, 9, 9, 6, 6, 7, 10, 10, 11, 0, 1, 2, 3, 4, 5, 8, 12]) } else { r.below(SHAPES.len() - 1) };
+        let mut shape = if let Some(f) = forced { f } else if c06 { *r.pick(&[9usize, 9, 9, 6, 6, 7, 10, 10, 11, 0, 1, 2, 3, 4, 5, 8, 12]) } else { r.below(SHAPES.len() - 2) };
+        if forced.is_none() && c06 {
+            // more than ten temporary identifiers: expensive for the Coq side, hence rare
+            if r.chance(1, 100) { shape = 14; } else if thorough && r.chance(1, 150) { shape = 13; }
+        }
         let big = thorough && r.chance(1, 40);
         let d: Vec<Q> = if exhaustive { exhaustive_case(idx).unwrap() } else { gen_dataset(&mut r, shape, big) };
         let shape_name = if exhaustive { "exhaustive" } else { SHAPES[shape] };
-        let sha384 = r.chance(1, 3);
+        let sha384 = r.chance(1, 3) && shape_name != "b9-b10-witness";
         let (s1, s2) = (r.below(4), r.below(4));
         let _ = take_table();
         let mut fails: Vec<String> = vec![];
